@@ -270,7 +270,7 @@ proofs! {
 			7 => (CpInfo::Long { high_bytes: p, low_bytes: q }, 5, 9),
 			8 => (CpInfo::Double { high_bytes: p, low_bytes: q }, 6, 9),
 			9 => (CpInfo::NameAndType { name_index: x, descriptor_index: y }, 12, 5),
-			10 => (CpInfo::MethodHandle { reference_kind: k, reference_index: x }, 15, 4),
+			10 => (CpInfo::MethodHandle { reference_kind: k as _, reference_index: x }, 15, 4), // `as _`: the harness must still build if a field width is changed
 			11 => (CpInfo::MethodType { descriptor_index: x }, 16, 3),
 			12 => (CpInfo::Dynamic { bootstrap_method_attr_index: x, name_and_type_index: y }, 17, 5),
 			13 => (CpInfo::InvokeDynamic { bootstrap_method_attr_index: x, name_and_type_index: y }, 18, 5),
